@@ -133,12 +133,30 @@ func runC11(c *fw.Case) (o fw.Outcome) {
 				}
 				o.Count("nas_messages_parsed", 1)
 			}
-			if n%40 == 0 {
+			if n%40 == 0 || c.Thorough() && n%4 == 0 {
 				if msg := c11Ngap(imsi, mcc, mnc, want); msg != "" {
 					o.Fail("ngap-plmn", "%s", msg)
 					return
 				}
 				o.Count("ngap_sequences_decoded", 1)
+				// PLMNs whose three octets are a WINDOW of what the builders hold right now - the PLMN just announced followed by
+				// the tracking area code 000001 and the cell identity of the location information - announced next: where the new
+				// value is compared with, searched in or copied over the stored one, only such neighbours tell the two apart
+				if n%80 == 0 {
+					ctx := append(append(append([]byte(nil), want...), 0x00, 0x00, 0x01), 0x00, 0x00, 0x00, 0x00, 0x10)
+					for off := 1; off+3 <= len(ctx); off++ {
+						wm, wn, ok := plmnDigits(ctx[off : off+3])
+						if !ok {
+							continue
+						}
+						wimsi := wm + wn + digits(r, 15-3-len(wn))
+						if msg := c11Ngap(wimsi, wm, wn, refPLMN(wm, wn)); msg != "" {
+							o.Fail("ngap-plmn", "announced right after %s/%s (octets %x): %s", mcc, mnc, want, msg)
+							return
+						}
+						o.Count("window_plmns_announced", 1)
+					}
+				}
 			}
 		}
 	}
@@ -292,6 +310,22 @@ func c11Ngap(imsi, mcc, mnc string, want []byte) string {
 	}
 	_ = tp.TestPlmn
 	return check("UplinkNASTransport after that NG Setup", b)
+}
+
+// plmnDigits reads three octets as a PLMN identity (TS 24.501 9.11.3.4 nibble layout); ok=false when a nibble is no digit.
+func plmnDigits(b []byte) (mcc, mnc string, ok bool) {
+	d := []byte{b[0] & 0xf, b[0] >> 4, b[1] & 0xf, b[2] & 0xf, b[2] >> 4, b[1] >> 4} // MCC1 MCC2 MCC3 MNC1 MNC2 MNC3
+	for i, x := range d {
+		if x > 9 && !(i == 5 && x == 0xf) {
+			return "", "", false
+		}
+	}
+	mcc = fmt.Sprintf("%d%d%d", d[0], d[1], d[2])
+	mnc = fmt.Sprintf("%d%d", d[3], d[4])
+	if d[5] != 0xf {
+		mnc += fmt.Sprint(d[5])
+	}
+	return mcc, mnc, true
 }
 
 func atoiDigits(s string) int {
